@@ -17,7 +17,9 @@ Legs (DESIGN 3.3):
                    clang -O2 and the caller by chibicc / gcc -O0 / gcc -O2 / clang: the caller records the value stored, the value used
                    directly (`(long)f(a)`), for _Bool also `!r`, `r ? 7 : 9`, the raw byte, `r + r + r`; everything must equal the
                    gcc -> gcc reference.  run_stub: a chibicc-compiled caller must read only the low sizeof bytes (the bits above are
-                   garbage in the stubs).
+                   garbage in the stubs).  run_guard: `T f(T *p) { return *p; }` for every struct / union shape of 1..16 bytes with *p in
+                   the last bytes of a page followed by an unmapped page: copy_struct_reg must not read outside the object
+                   (C06_struct_return_bytes); gcc / clang callees validate the probe.
 """
 import os, struct, re
 from .framework import *
@@ -625,3 +627,97 @@ def run_stub(ctx, corr):
     corr.extra['callers_relying_on_bits_above_the_returned_type'] = {w: relies.get(w, []) for w in ('gcc', 'gccO2', 'clang')}
     if any(relies.values()):
         corr.count('retstub-oracle-relies-on-upper-bits', sum(len(x) for x in relies.values()))
+
+
+# ---------------------------------------------------------------- leg: struct return reads only the object (guard page)
+
+GUARD_MAIN = r'''
+#include <stdio.h>
+#include <string.h>
+#include <signal.h>
+#include <setjmp.h>
+#include <sys/mman.h>
+static sigjmp_buf jb;
+static void on_segv(int s) { siglongjmp(jb, 1); }
+static char *page_end(void) {
+  static char *end;
+  if (!end) {
+    char *base = mmap(0, 8192, PROT_READ | PROT_WRITE, MAP_PRIVATE | MAP_ANONYMOUS, -1, 0);
+    if (base == MAP_FAILED || mprotect(base + 4096, 4096, PROT_NONE)) { printf("NOGUARD\n"); return 0; }
+    end = base + 4096;
+  }
+  return end;
+}
+'''
+
+
+def guard_types(ctx):
+    S = G.struct_of
+    ts = float_structs() + [S(G.arr(G.CHAR, n)) for n in range(1, 17)] + \
+        [S(G.LONG, G.CHAR), S(G.INT, G.INT, G.INT), S(G.LONG, G.FLT), S(G.DBL, G.INT), S(G.arr(G.SHORT, 5)), S(G.LONG, G.arr(G.CHAR, 3)),
+         G.union_of(G.arr(G.INT, 3), G.FLT), S(G.FLT, G.INT, G.FLT)]
+    return [t for t in ts if 0 < t.size <= 16]
+
+
+def run_guard(ctx, corr):
+    """`T f(T *p) { return *p; }` with *p in the last sizeof(T) bytes of a page followed by an unmapped one: copy_struct_reg must
+    not read beyond the object (C06_struct_return_bytes; /repo 7826748 repaired an 8-byte load of the last 4 bytes)"""
+    d = os.path.join(ctx.scratch, 'retguard')
+    os.makedirs(d, exist_ok=True)
+    types = guard_types(ctx)
+    aggs = []
+    for t in types:
+        G.agg_types_of(t, aggs)
+    defs = []
+    for t in aggs:
+        kw = 'union' if t.isunion else 'struct'
+        body = ' '.join((f'_Alignas({al}) ' if al else '') + mt.cdecl(n) + ';' for n, mt, _, al in t.members)
+        defs.append(f"{kw} {t.tag} {{ {body} }};")
+    callee = list(defs)
+    main = [GUARD_MAIN] + defs
+    body = ['int main(void) {', '  char *end = page_end(); if (!end) return 0;',
+            '  struct sigaction sa; memset(&sa, 0, sizeof sa); sa.sa_handler = on_segv; sigaction(SIGSEGV, &sa, 0); sigaction(SIGBUS, &sa, 0);']
+    for k, t in enumerate(types):
+        cd = t.cdecl('').strip()
+        callee.append(f'{cd} gd{k}({cd} *p) {{ return *p; }}')
+        main.append(f'{cd} gd{k}({cd} *p);')
+        cmp_ = ' || '.join(f'memcmp(&r.{path[1:]}, &p->{path[1:]}, sizeof r.{path[1:]})' for path, lt, off in G.leaves(t)) or '0'
+        body.append(f'  {{ {cd} *p = ({cd} *)(end - sizeof({cd})); for (unsigned i = 0; i < sizeof({cd}); i++) ((unsigned char *)p)[i] = (unsigned char)(0x41 + 7 * i + {k});')
+        body.append(f'    if (sigsetjmp(jb, 1) == 0) {{ {cd} r = gd{k}(p); printf("G {k} %d\\n", ({cmp_}) ? 1 : 0); }} else printf("G {k} fault\\n"); fflush(stdout); }}')
+    body.append('  printf("END\\n"); return 0; }')
+    open(os.path.join(d, 'gcallee.c'), 'w').write('\n'.join(callee) + '\n')
+    open(os.path.join(d, 'gmain.c'), 'w').write('\n'.join(main + body) + '\n')
+    rc, o, e = sh(['gcc', '-w', '-O1', '-c', 'gmain.c', '-o', 'gmain.o'], cwd=d)
+    if rc != 0:
+        raise RuntimeError('guard-page probe does not compile: ' + e[-300:])
+    for who, cmd in (('gcc', ['gcc', '-w', '-O0']), ('clang', ['clang-14', '-w', '-O2']), ('chibicc', [ctx.cc])):
+        rc, o, e = sh(cmd + ['-c', 'gcallee.c', '-o', f'gcallee_{who}.o'], cwd=d, timeout=300)
+        if rc != 0:
+            if who == 'chibicc':
+                corr.violations.append({'what': 'chibicc rejects the guard-page probe', 'input': 'gcallee.c', 'expected': 'compiles', 'got': e[-300:], 'mode': 'retguard'})
+            continue
+        sh(['gcc', '-o', f'g_{who}', 'gmain.o', f'gcallee_{who}.o'], cwd=d)
+        rc, o, e = sh([f'./g_{who}'], cwd=d, timeout=60)
+        if 'NOGUARD' in o:
+            corr.count('skipped_no_guard_page')
+            return
+        got = {}
+        for l in o.split('\n'):
+            w = l.split(' ')
+            if w[0] == 'G' and len(w) == 3:
+                got[int(w[1])] = w[2]
+        for k, t in enumerate(types):
+            corr.evaluations += 1
+            corr.count(f'retguard-{who}')
+            r = got.get(k)
+            if r == '0':
+                if who == 'chibicc':
+                    corr.nontrivial.add('retguard:' + t.short())
+                continue
+            if who != 'chibicc':
+                corr.disagreements.append({'kind': f'retguard probe invalid ({who})', 'type': t.short(), 'result': r})
+                continue
+            corr.violations.append({'what': f'returning {t.short()} by value: ' + ('the callee reads beyond the object (fault on the unmapped page that follows it)' if r == 'fault'
+                                                                                   else 'the value does not arrive intact' if r == '1' else f'the probe stopped (exit status {rc})'),
+                                    'input': f'{t.short()} f({t.short()} *p) {{ return *p; }}  with *p in the last {t.size} bytes of a page, the next page unmapped',
+                                    'expected': 'every member arrives, no access outside the object', 'got': r or 'no record', 'mode': 'retguard'})
